@@ -296,7 +296,7 @@ def _week53(names, st):
 
 def gen_project(R, bvmods, today, *, eol_choices=("\n",), filler="plain", legacy=False, n_files=None,
                 max_patterns=4, vp=None, state=None, shared_line_p=0.35, cfg_fmt=None, globs=True,
-                allow_partial=True, commit_cfg=None, bom_p=0.0):
+                allow_partial=True, commit_cfg=None, bom_p=0.0, repeat_p=0.3):
     """Generate one project. Returns (Project, None) or (None, discard_reason)."""
     proj = Project()
     proj.legacy = legacy
@@ -417,6 +417,10 @@ def gen_project(R, bvmods, today, *, eol_choices=("\n",), filler="plain", legacy
         segs = []   # list of line segment lists: each line = list of (text, plant-or-None)
         pending = pats[:]
         R.shuffle(pending)
+        # a pattern may occur on several lines of a file (every such line is rewritten); extras get own lines
+        extras = []
+        if eol_mode != "mixed" and repeat_p and R.random() < repeat_p:
+            extras = [R.choice(pats) for _ in range(R.randint(1, 2))]
         n_pre = R.randint(0, 4)
         lines = [[(fill(R), None)] for _ in range(n_pre)]
         while pending:
@@ -432,6 +436,13 @@ def gen_project(R, bvmods, today, *, eol_choices=("\n",), filler="plain", legacy
                 line.append(((sep if gi < len(group) - 1 else R.choice(["", " ", " # ", "\t"])) + (fill(R, R.randint(0, 2)) if gi == len(group) - 1 else ""), None))
             lines.append(line)
             for _ in range(R.randint(0, 2)):
+                lines.append([(fill(R), None)])
+        for raw in extras:
+            norm, kind, a_, text = occurrence(raw)
+            lines.append([(fill(R, R.randint(0, 2)) + " ", None), (text, (raw, norm, kind, a_)),
+                          (R.choice(["", " ", " # again"]), None)])
+            proj.meta["repeated_occurrences"] = proj.meta.get("repeated_occurrences", 0) + 1
+            for _ in range(R.randint(0, 1)):
                 lines.append([(fill(R), None)])
         final_nl = R.random() < 0.7
         if bom_p and R.random() < bom_p:
@@ -490,7 +501,7 @@ def gen_project(R, bvmods, today, *, eol_choices=("\n",), filler="plain", legacy
     why = prove_unambiguous(proj)
     if why:
         return None, "layout:" + why.split(":")[0]
-    proj.meta = {"cfg_extra": commit_cfg, "bom_files": proj.meta.get("bom_files", []), "n_files": nf, "fmt": fmt, "explicit_cfg": explicit_cfg, "quote": quote,
+    proj.meta = {"repeated_occurrences": proj.meta.get("repeated_occurrences", 0), "cfg_extra": commit_cfg, "bom_files": proj.meta.get("bom_files", []), "n_files": nf, "fmt": fmt, "explicit_cfg": explicit_cfg, "quote": quote,
                  "shared_lines": sum(1 for _ in _shared_lines(proj)), "kinds": sorted({p.kind for p in proj.plants}),
                  "eols": sorted(set(proj.eol.values())), "globs": sum(1 for k, _ in entries if "*" in k or "?" in k)}
     return proj, None
